@@ -159,6 +159,10 @@ class C16(GenericModelFamily):
                            "model_result": model_text, "violated_clause": clause,
                            "theorem_or_correspondence": self.correspondence}, found)
 
+        # second stream: the gate as reached from bytes (prost structure -> token block), theorems C16_wire_*
+        from fam_wire import run_convert
+        run_convert(ctx)
+
     def classify(self, ctx, case_text, model_text):
         if case_text.startswith("SBuild"):
             m = re.search(r"(\d+)%N\s*$", case_text)
